@@ -16,7 +16,8 @@ EMPTY_MSG = project.empty_msg("none")
 
 def base_event(eid, obj, kind):
     return {"id": eid, "obj": obj, "k": kind, "msg": EMPTY_MSG, "status": "ok", "warns": [],
-            "ser_eq": True, "intact": True, "cls": "", "completed_eq": True, "acc_eq": True, "expose_intact": True}
+            "ser_eq": True, "intact": True, "cls": "", "completed_eq": True, "acc_eq": True, "expose_intact": True,
+            "completed_acc": False}
 
 
 def accessor_view(ro):
@@ -48,6 +49,7 @@ def run_behaviour(bid, beh, seed, observe=None, expose=None):
         if not project.bind(shape, project.project_ro(ro), table):
             raise Machinery("gamma/alpha round trip failed for initial running order of %s" % bid)
         objs[int(o)] = ro
+        execute.completed_of(ro)          # the flag is read from the start: it must follow later merges
     live = {}     # step index -> (message object, its serialisation right after parsing)
 
     def snap(o):
@@ -88,7 +90,8 @@ def run_behaviour(bid, beh, seed, observe=None, expose=None):
                 else:
                     status = "crash:BadReturn"
             ev.update(post=snap(o), status=status, warns=warns, ser_eq=(str(ro) == before),
-                      intact=all(str(mm) == s0 for mm, s0, _ in live.values()))
+                      intact=all(str(mm) == s0 for mm, s0, _ in live.values()),
+                      completed_acc=execute.completed_of(objs[o]))
             if expose:
                 ev["expose_intact"] = all(expose(mm, type(mm).__name__) == x0 for mm, _, x0 in live.values())
         elif kind == "reload":
